@@ -128,6 +128,14 @@ class WorldAdapter:
         env.probe_killer = None
         env.reentrant = None
         env.w = desper.World()
+        env.blog = []
+        bcomp = desper.event_handler('on_add', 'on_remove', 'probe')(
+            type('ByComp', (), {'on_add': lambda s_, e, w_: env.blog.append('on_add'), 'on_remove': lambda s_, e, w_: env.blog.append('on_remove'),
+                                'probe': lambda s_, *a: env.blog.append('probe')}))
+        env.w2 = desper.World()
+        env.w2.dispatch_enabled = False
+        env.w2.create_entity(bcomp(), entity_id='bystander')
+        env.w2.add_processor(type('ByProc', (desper.Processor,), {'process': lambda s_, dt: None})())
         self.counter += 1
         # an identifier is any hashable: in half of the behaviours the highest user-supplied id (one the automatic
         # counter never reaches) is a FALSY one - 0 or '' - which must behave like any other
@@ -498,6 +506,13 @@ class WorldAdapter:
             obs['wb_queue_len'] = len(w._event_queue)
         except Exception:
             obs['wb_queue_len'] = SKIP
+        # a second World, populated once and kept disabled: nothing done to the world under test may show there
+        # (tables, processors and pending events are per instance); it is opened and closed again after every call
+        b = env.w2
+        b.dispatch_enabled = True
+        b.dispatch_enabled = False
+        obs['bystander'] = (tuple(sorted(map(repr, b.entities))), tuple(type(c).__name__ for c in b.get_components('bystander')),
+                            tuple(type(q).__name__ for q in b.processors), tuple(env.blog))
         return obs
 
     # ------------------------------------------------------------------------------------------
@@ -565,6 +580,7 @@ class WorldAdapter:
             exp['ctrl_knows'] = lambda o, must=must: all(o.get(c) == v for c, v in must.items())
         exp['wb_tables'] = (rows, {t: frozenset(s) for t, s in index.items()}, frozenset(dead))
         exp['wb_queue_len'] = len(post['queue'])
+        exp['bystander'] = (("'bystander'",), ('ByComp',), ('ByProc',), ('on_add',))
         return exp
 
     def _expand(self, entry, reg):
